@@ -599,7 +599,21 @@ func runSet(c *core.Ctx) {
 		}
 		w.ctxOn = on
 		for _, key := range keysU {
-			w.void(key) // errored routines are documented not to restart on a context change
+			w.void(key) // errored routines are documented not to restart when the context is cleared and set again
+		}
+	}
+	// switchCtx replaces the context by a different live one without restart: a
+	// non-restarting call, so pending retries must still happen (C07.K3)
+	switchCtx := func() {
+		var cancel2 context.CancelFunc
+		ctx, cancel2 = context.WithCancel(context.Background())
+		_ = cancel2
+		c.Descf("op: SetContext(other live context, restart=false)")
+		c.S.Count("probe:context-switched")
+		if w.rc != nil {
+			w.rc.SetContext(ctx, false)
+		} else {
+			w.k.SetContext(ctx, false)
 		}
 	}
 	if c.S.PlanP(800) {
@@ -662,7 +676,11 @@ func runSet(c *core.Ctx) {
 			c.S.Count("fault:time-jump")
 			c.S.Advance(d)
 		case k < 18:
-			setCtx(!w.ctxOn)
+			if w.ctxOn && c.S.PlanP(500) {
+				switchCtx()
+			} else {
+				setCtx(!w.ctxOn)
+			}
 		default:
 			w.compareSets(false)
 		}
